@@ -12,12 +12,13 @@ import PyGqlModel.Props.C06_input
 import PyGqlModel.Props.C06_ctx
 import PyGqlModel.Props.C06_spreads
 import PyGqlModel.Props.C06_vars
+import PyGqlModel.Props.C06_frags
 namespace PyGql.Props.C06
 open PyGql PyGql.Validate PyGql.Validate.Spec
 
 def ProvedTyped : List Rule :=
   [.fieldsOnCorrectType, .scalarLeafs, .knownArgumentNames, .providedRequiredArguments, .fragmentsOnCompositeTypes,
-   .uniqueInputFieldNames, .knownDirectives]
+   .uniqueInputFieldNames, .knownDirectives, .noUnusedFragments]
 /-- rules whose specification predicate depends on the ORDER of definitions when fragment names are not unique
     (the last definition of a name wins) -/
 def ProvedOrder : List Rule := [.possibleFragmentSpreads]
@@ -42,6 +43,7 @@ def SpecAll (r : Rule) (s : SchemaD) (fx : Fixes) (d : Doc) : Prop :=
   | .fragmentsOnCompositeTypes => Spec.fragmentsOnCompositeTypes s d
   | .uniqueInputFieldNames => Spec.uniqueInputFieldNames d
   | .knownDirectives => Spec.knownDirectives s d
+  | .noUnusedFragments => Spec.everyFragmentSpreadSomewhere d
   | .possibleFragmentSpreads => Spec.possibleFragmentSpreads s fx d
   | .uniqueVariableNames => Spec.uniqueVariableNames d
   | .noUndefinedVariables => Spec.noUndefinedVariables d
@@ -57,7 +59,7 @@ theorem rule_iff_all (s : SchemaD) (fx : Fixes) (hfx : HeadVars fx) (d : Doc) (r
     simp only [Proved, List.mem_cons, List.not_mem_nil, or_false] at hr
     rcases hr with rfl | rfl | rfl | rfl | rfl | rfl | rfl | rfl | rfl | rfl <;> exact this
   · simp only [ProvedTyped, List.mem_cons, List.not_mem_nil, or_false] at hr
-    rcases hr with rfl | rfl | rfl | rfl | rfl | rfl | rfl
+    rcases hr with rfl | rfl | rfl | rfl | rfl | rfl | rfl | rfl
     · exact rule_fields_on_correct_type_iff s fx d
     · exact rule_scalar_leafs_iff s fx d
     · exact rule_known_argument_names_iff s fx d
@@ -65,6 +67,7 @@ theorem rule_iff_all (s : SchemaD) (fx : Fixes) (hfx : HeadVars fx) (d : Doc) (r
     · exact rule_fragments_on_composite_types_iff s fx d
     · exact rule_unique_input_field_names_iff s fx d
     · exact rule_known_directives_iff s fx d
+    · exact rule_no_unused_fragments_iff_implemented s fx d
   · simp only [ProvedOrder, List.mem_cons, List.not_mem_nil, or_false] at hr
     subst hr
     exact rule_possible_fragment_spreads_iff s fx d
@@ -84,7 +87,7 @@ theorem rule_iff_permdefs (s : SchemaD) (fx : Fixes) (d : Doc) (r : Rule) (hr : 
     simp only [Proved, List.mem_cons, List.not_mem_nil, or_false] at hr
     rcases hr with rfl | rfl | rfl | rfl | rfl | rfl | rfl | rfl | rfl | rfl <;> exact this
   · simp only [ProvedTyped, List.mem_cons, List.not_mem_nil, or_false] at hr
-    rcases hr with rfl | rfl | rfl | rfl | rfl | rfl | rfl
+    rcases hr with rfl | rfl | rfl | rfl | rfl | rfl | rfl | rfl
     · exact rule_fields_on_correct_type_iff s fx d
     · exact rule_scalar_leafs_iff s fx d
     · exact rule_known_argument_names_iff s fx d
@@ -92,13 +95,14 @@ theorem rule_iff_permdefs (s : SchemaD) (fx : Fixes) (d : Doc) (r : Rule) (hr : 
     · exact rule_fragments_on_composite_types_iff s fx d
     · exact rule_unique_input_field_names_iff s fx d
     · exact rule_known_directives_iff s fx d
+    · exact rule_no_unused_fragments_iff_implemented s fx d
 
-/-- **verdict_iff** for the conjunction of the 22 rules proved -/
+/-- **verdict_iff** for the conjunction of the 23 rules proved -/
 theorem verdict_iff_all_partial (s : SchemaD) (fx : Fixes) (hfx : HeadVars fx) (d : Doc) :
     (∀ r ∈ ProvedAll, Silent s fx r d) ↔ (∀ r ∈ ProvedAll, SpecAll r s fx d) :=
   forall_congr' fun r => forall_congr' fun hr => rule_iff_all s fx hfx d r hr
 
-/-- **attribution** over the 22 rules proved (on the rules run alone; see `attribution_partial`) -/
+/-- **attribution** over the 23 rules proved (on the rules run alone; see `attribution_partial`) -/
 theorem attribution_all_partial (s : SchemaD) (fx : Fixes) (hfx : HeadVars fx) (d : Doc) (r : Rule) (hr : r ∈ ProvedAll)
     (hbad : ¬ SpecAll r s fx d) (hothers : ∀ r' ∈ ProvedAll, r' ≠ r → SpecAll r' s fx d) :
     0 < E (alone s fx r d) ∧ ∀ r' ∈ ProvedAll, r' ≠ r → E (alone s fx r' d) = 0 := by
@@ -108,7 +112,7 @@ theorem attribution_all_partial (s : SchemaD) (fx : Fixes) (hfx : HeadVars fx) (
 theorem typedNodes_perm (s : SchemaD) {d d' : Doc} (h : d.defs.Perm d'.defs) (p : Node × View) :
     p ∈ typedNodes s d ↔ p ∈ typedNodes s d' := (h.flatMap_right _).mem_iff
 
-/-- **perm_definitions** for 17 of the 22 rules proved (`PossibleFragmentSpreads` reads the type condition of the LAST
+/-- **perm_definitions** for 17 of the 23 rules proved (`PossibleFragmentSpreads` reads the type condition of the LAST
     definition of a fragment name, so with duplicate fragment names its predicate depends on the order) -/
 theorem perm_definitions_all_partial (s : SchemaD) (fx : Fixes) {d d' : Doc} (h : d.defs.Perm d'.defs) (r : Rule)
     (hr : r ∈ ProvedPermDefs) : Silent s fx r d ↔ Silent s fx r d' := by
@@ -128,7 +132,7 @@ theorem perm_definitions_all_partial (s : SchemaD) (fx : Fixes) {d d' : Doc} (h 
       · rintro ⟨_, H⟩; exact ⟨hP _, fun n ⟨x, hx, hm⟩ => H n ⟨x, h.mem_iff.mp hx, hm⟩⟩
     have hg : ∀ {X : Type} (down : Node → X → X) (x0 : X) (p : Node × X), p ∈ gnDoc down x0 d ↔ p ∈ gnDoc down x0 d' :=
       fun down x0 p => (h.flatMap_right _).mem_iff
-    rcases hr with rfl | rfl | rfl | rfl | rfl | rfl | rfl
+    rcases hr with rfl | rfl | rfl | rfl | rfl | rfl | rfl | rfl
     · simp only [SpecAll, Spec.fieldsOnCorrectType, hm]
     · simp only [SpecAll, Spec.scalarLeafs, hm]
     · simp only [SpecAll, Spec.knownArgumentNames, hm]
@@ -137,6 +141,27 @@ theorem perm_definitions_all_partial (s : SchemaD) (fx : Fixes) {d d' : Doc} (h 
       exact and_congr (hnodes _ (fun _ => by simp)) (hnodes _ (fun _ => by simp))
     · exact hnodes _ (fun _ => by simp)
     · simp only [SpecAll, Spec.knownDirectives, hg]
+    · simp only [SpecAll, Spec.everyFragmentSpreadSomewhere]
+      have hmem : ∀ n, n ∈ nodes d ↔ (n = .document d ∨ n ∈ d.defs.flatMap defNodes) := fun n => by simp [nodes]
+      have hmem' : ∀ n, n ∈ nodes d' ↔ (n = .document d' ∨ n ∈ d'.defs.flatMap defNodes) := fun n => by simp [nodes]
+      have hfl : ∀ n, n ∈ d.defs.flatMap defNodes ↔ n ∈ d'.defs.flatMap defNodes := fun n => (h.flatMap_right _).mem_iff
+      constructor
+      · intro H n hn name on dirs e
+        subst e
+        rcases (hmem' _).mp hn with h0 | h0
+        · cases h0
+        · obtain ⟨m, hm', ds, rfl⟩ := H _ ((hmem _).mpr (Or.inr ((hfl _).mpr h0))) name on dirs rfl
+          rcases (hmem _).mp hm' with h1 | h1
+          · cases h1
+          · exact ⟨_, (hmem' _).mpr (Or.inr ((hfl _).mp h1)), ds, rfl⟩
+      · intro H n hn name on dirs e
+        subst e
+        rcases (hmem _).mp hn with h0 | h0
+        · cases h0
+        · obtain ⟨m, hm', ds, rfl⟩ := H _ ((hmem' _).mpr (Or.inr ((hfl _).mp h0))) name on dirs rfl
+          rcases (hmem' _).mp hm' with h1 | h1
+          · cases h1
+          · exact ⟨_, (hmem _).mpr (Or.inr ((hfl _).mpr h1)), ds, rfl⟩
 
 /-- every rule of the chain is either proved or listed in `Spec.Unproved` -/
 theorem proved_all_or_listed : ∀ r ∈ Rule.all, r ∈ ProvedAll ∨ r.name ∈ Spec.Unproved := by decide
